@@ -188,11 +188,6 @@ func (g *G) grpcMethod(s *m.Service, scope map[string]bool) {
 			if label != "md" && g.avoid("C01-grpc-response-metadata") {
 				continue
 			}
-			if label == "md" && f.Attr.Type.Kind == m.User {
-				if v := MergedValidation(g.d, f.Attr); (v.MinLen != nil || v.MaxLen != nil) && g.avoid("C01-grpc-metadata-alias-length-validation-gen-panic") {
-					continue
-				}
-			}
 			if label == "md" && (f.Attr.Type.Kind == m.User || f.Attr.Type.Kind == m.Array && f.Attr.Type.Elem.Type.Kind == m.User) && g.avoid("C01-grpc-metadata-alias-type") {
 				continue
 			}
